@@ -207,6 +207,50 @@ def scrape(probe=None):
     return F
 
 
+def scrape_driver():
+    """DriverFacts.v: the order of effects in idlc/src/main.rs (C19).  Every output file is
+    opened inside the backend `match`, which starts after the last validation pass and the
+    read of the marking file; every open uses create+write+truncate; the content is computed
+    before the file is opened; the marking is written before the content."""
+    src = read("idlc/src/main.rs")
+    facts, problems = {}, []
+    code = re.sub(r"//.*", "", src)
+    pos_verify = code.find("InterfaceVerifier::new(&mir).run_pass()")
+    pos_marking = code.find("read_to_string(args.marking")
+    pos_match = code.find("match (args.c, args.cpp, args.java, args.rust)")
+    opens = [m.start() for m in re.finditer(r"OpenOptions::new\(\)", code)]
+    creates = [m.start() for m in re.finditer(r"File::create|fs::write|create_dir", code)]
+    if pos_verify < 0 or pos_match < 0 or not opens:
+        problems.append("main.rs: cannot locate the validation / output structure")
+        return facts, problems
+    facts["writes_after_validation"] = all(o > pos_verify and o > pos_match for o in opens) and not creates and \
+        (pos_marking < 0 or pos_marking < pos_match)
+    chains = re.findall(r"OpenOptions::new\(\)((?:\s*\.\w+\([^)]*\))+)", code)
+    facts["open_truncates"] = all(".truncate(true)" in c.replace(" ", "").replace("\n", "") and ".create(true)" in c.replace(" ", "").replace("\n", "") for c in chains) and len(chains) == len(opens)
+    # per arm: generation precedes the open; marking is written before the content
+    arms = re.split(r"\n        \((?:true|false), (?:true|false), (?:true|false), (?:true|false)\) => \{", code[pos_match:])[1:]
+    ok_gen, ok_mark = True, True
+    for a in arms:
+        g = re.search(r"generate(?:_invoke|_implementation)?\(&mir\)", a)
+        o = a.find("OpenOptions::new()")
+        if g is None or o < 0 or g.start() > o:
+            ok_gen = False
+        wm, wc = a.find("write_all(marking.as_bytes())"), a.find("write_all(content.as_bytes())")
+        if wm < 0 or wc < 0 or wm > wc:
+            ok_mark = False
+    facts["content_before_open"] = ok_gen and len(arms) == 4
+    facts["marking_before_content"] = ok_mark and len(arms) == 4
+    return facts, problems
+
+
+def render_driver(facts):
+    out = ["(* GENERATED by lib/translate.py from idlc/src/main.rs: order of effects of the driver. *)",
+           "Require Import Base.", ""]
+    for k in ("writes_after_validation", "open_truncates", "content_before_open", "marking_before_content"):
+        out.append("Definition %s : bool := %s." % (k, "true" if facts.get(k) else "false"))
+    return "\n".join(out) + "\n"
+
+
 def ptable(name, tbl):
     arms = " ".join("| %s => %d" % (COQP[p], tbl[p]) for p in PRIMS)
     return "Definition %s (p : prim) : N := match p with %s end.\n" % (name, arms)
@@ -247,6 +291,11 @@ def main(outdir, probe=None):
     if F.problems:
         return F, None
     changed = write_if_changed(os.path.join(outdir, "CodeFacts.v"), render(F))
+    df, dproblems = scrape_driver()
+    F.problems += dproblems
+    F.items["driver"] = df
+    if not dproblems:
+        write_if_changed(os.path.join(outdir, "DriverFacts.v"), render_driver(df))
     return F, changed
 
 
